@@ -202,4 +202,262 @@ example : JsxFreeL [.mk .importDecl ["false", "evaluation"] [nList [.mk .importS
     .mk .exprStmt [] [.mk .assign ["="] [.mk .ident ["a", "b2"] [nNone], nArrow [] (nBlock [nReturn (nNum 1)])]]] = true := by
   decide
 
+/-! ### identity with resolveType ON: a JSX-free module that does not import `defineComponent` from 'vue' -/
+
+/-- is this node an import declaration that binds Vue's `defineComponent`? -/
+def importsDc : Node → Bool
+  | .mk .importDecl _ (.mk .list _ specs :: .mk .str (src :: _) _ :: _) => src == "vue" && (importedDefineComponent specs).isSome
+  | _ => false
+
+mutual
+def NoDcImport : Node → Bool
+  | .mk k as ks => !importsDc (.mk k as ks) && NoDcImportL ks
+def NoDcImportL : List Node → Bool
+  | [] => true
+  | n :: ns => NoDcImport n && NoDcImportL ns
+end
+
+/-- what a JSX-free traversal may write when nothing binds `defineComponent`: only `assignment_left` -/
+def St.forgetA (st : St) : St := { st with assignmentLeft := none }
+
+theorem quiet_of_forgetA {a b : St} (h : a.forgetA = b.forgetA) (hq : Quiet b) : Quiet a := by
+  have h1 : a.forgetA.injectingVars = b.forgetA.injectingVars := by rw [h]
+  have h2 : a.forgetA.injectingConsts = b.forgetA.injectingConsts := by rw [h]
+  simp only [St.forgetA] at h1 h2
+  exact ⟨h1.trans hq.1, h2.trans hq.2⟩
+
+theorem dc_of_forgetA {a b : St} (h : a.forgetA = b.forgetA) (hd : b.defineComponent = none) : a.defineComponent = none := by
+  have h1 : a.forgetA.defineComponent = b.forgetA.defineComponent := by rw [h]
+  simp only [St.forgetA] at h1
+  exact h1.trans hd
+
+theorem importHook_noDc (k : K) (as : List String) (ks : List Node) (st : St) (h : importsDc (.mk k as ks) = false) :
+    importHook (.mk k as ks) st = st := by
+  unfold importHook
+  split
+  · rename_i heq
+    injection heq with h1 h2 h3
+    subst h1 h3
+    simp only [importsDc, Bool.and_eq_false_iff] at h
+    split
+    · rfl
+    · rename_i hsrc
+      rcases h with h | h
+      · simp [bne, h] at hsrc
+      · split
+        · rename_i b hb; simp [hb] at h
+        · rfl
+  · rfl
+
+theorem exprHook_jsxfreeA (o : Opts) (env : Env) (pos : Pos) (k : K) (as : List String) (ks : List Node) (st : St)
+    (hk : isJsxKind k = false) :
+    (exprHook o env pos (.mk k as ks) st).1 = .mk k as ks ∧ (exprHook o env pos (.mk k as ks) st).2.forgetA = st.forgetA := by
+  unfold exprHook
+  split
+  · exact ⟨rfl, rfl⟩
+  · split
+    · rename_i heq; injection heq with h1; subst h1; simp [isJsxKind] at hk
+    · rename_i heq; injection heq with h1; subst h1; simp [isJsxKind] at hk
+    · exact ⟨rfl, rfl⟩
+    · exact ⟨rfl, rfl⟩
+
+/-- with no binding of Vue's `defineComponent` recorded, no call is Vue's -/
+theorem isDefineComponentCall_none (st : St) (call : Node) (hd : st.defineComponent = none) :
+    isDefineComponentCall st call = false := by
+  unfold isDefineComponentCall
+  split
+  · simp [hd]
+  · rfl
+
+theorem kindHook_identity_rt (o : Opts) (env : Env) (k : K) (as : List String) (ks : List Node)
+    (st : St) (hk : isJsxKind k = false) (hi : importsDc (.mk k as ks) = false) (hd : st.defineComponent = none) :
+    kindHook o env (.mk k as ks) st = (.mk k as ks, st) := by
+  unfold kindHook
+  split
+  · rename_i heq; injection heq with h1; subst h1; simp [isJsxKind] at hk
+  · rename_i heq; injection heq with h1 h2 h3; subst h1 h2 h3
+    rw [importHook_noDc _ _ _ _ hi]
+  · simp only [callHook, isDefineComponentCall_none _ _ hd]
+    split <;> rfl
+  · simp only [declaratorHook]
+    split
+    · rfl
+    · split
+      · simp only [isDefineComponentCall_none _ _ hd]; rfl
+      · rfl
+  · rfl
+
+mutual
+/-- THE IDENTITY THEOREM, resolveType-independent form: on a JSX-free tree that nowhere imports Vue's
+    `defineComponent`, for EVERY option set (resolveType on or off, any type registry), with nothing pending and no
+    binding recorded, the visitor returns the tree unchanged and changes nothing of its state but `assignment_left`. -/
+theorem visit_identity_rt (o : Opts) (env : Env) :
+    ∀ (n : Node) (pos : Pos) (st : St), JsxFree n = true → NoDcImport n = true → Quiet st → st.defineComponent = none →
+      (visit o env n pos st).1 = n ∧ (visit o env n pos st).2.forgetA = st.forgetA
+  | .mk k as ks, pos, st, hj, hi, hq, hd => by
+    have hk : isJsxKind k = false := by
+      simp only [JsxFree, Bool.and_eq_true, Bool.not_eq_true'] at hj; exact hj.1
+    have hks : JsxFreeL ks = true := by
+      simp only [JsxFree, Bool.and_eq_true] at hj; exact hj.2
+    have hin : importsDc (.mk k as ks) = false := by
+      simp only [NoDcImport, Bool.and_eq_true, Bool.not_eq_true'] at hi; exact hi.1
+    have his : NoDcImportL ks = true := by
+      simp only [NoDcImport, Bool.and_eq_true] at hi; exact hi.2
+    unfold visit
+    split
+    next =>
+      obtain ⟨ih1, ih2⟩ := visitKids_identity_rt o env ks .stmts pos 0 st hks his hq hd
+      have hq' : Quiet (visitKids o env .stmts pos 0 ks st).2 := quiet_of_forgetA ih2 hq
+      simp only [clearPending_quiet st hq, ih1, drainInto_quiet _ _ hq']
+      rw [restore_quiet _ _ _ hq' hq.2 hq.1]
+      exact ⟨trivial, ih2⟩
+    next params rest =>
+      simp only [JsxFreeL, Bool.and_eq_true] at hks
+      simp only [NoDcImportL, Bool.and_eq_true] at his
+      obtain ⟨p1, p2⟩ := visit_identity_rt o env params (kidPos .arrow pos 0) st hks.1 his.1 hq hd
+      have hqp : Quiet (visit o env params (kidPos .arrow pos 0) st).2 := quiet_of_forgetA p2 hq
+      have hdp := dc_of_forgetA p2 hd
+      obtain ⟨r1, r2⟩ := visitKids_identity_rt o env rest .arrow pos 1 _ hks.2 his.2 hqp hdp
+      have hqr : Quiet (visitKids o env .arrow pos 1 rest (visit o env params (kidPos .arrow pos 0) st).2).2 := quiet_of_forgetA r2 hqp
+      simp only [p1, clearPending_quiet _ hqp, r1, drainArrow_quiet _ _ hqr]
+      have hfin : ({ (visitKids o env .arrow pos 1 rest (visit o env params (kidPos .arrow pos 0) st).2).2 with
+            injectingConsts := (visit o env params (kidPos .arrow pos 0) st).2.injectingConsts ++
+              (visitKids o env .arrow pos 1 rest (visit o env params (kidPos .arrow pos 0) st).2).2.injectingConsts,
+            injectingVars := (visit o env params (kidPos .arrow pos 0) st).2.injectingVars ++
+              (visitKids o env .arrow pos 1 rest (visit o env params (kidPos .arrow pos 0) st).2).2.injectingVars } : St)
+          = (visitKids o env .arrow pos 1 rest (visit o env params (kidPos .arrow pos 0) st).2).2 := by
+        apply restore_quiet _ _ _ hqr
+        · simp [hqp.2, hqr.2]
+        · simp [hqp.1, hqr.1]
+      rw [hfin]
+      have he := exprHook_jsxfreeA o env pos .arrow as (params :: rest)
+        (visitKids o env .arrow pos 1 rest (visit o env params (kidPos .arrow pos 0) st).2).2 (by rfl)
+      exact ⟨he.1, he.2.trans (r2.trans p2)⟩
+    next =>
+      obtain ⟨ih1, ih2⟩ := visitKids_identity_rt o env ks k pos 0 st hks his hq hd
+      have hd' := dc_of_forgetA ih2 hd
+      have hkh := kindHook_identity_rt o env k as ks (visitKids o env k pos 0 ks st).2 hk hin hd'
+      simp only [ih1, hkh]
+      have he := exprHook_jsxfreeA o env pos k as ks (visitKids o env k pos 0 ks st).2 hk
+      exact ⟨he.1, he.2.trans ih2⟩
+theorem visitKids_identity_rt (o : Opts) (env : Env) :
+    ∀ (ks : List Node) (k : K) (pos : Pos) (i : Nat) (st : St), JsxFreeL ks = true → NoDcImportL ks = true → Quiet st →
+      st.defineComponent = none →
+      (visitKids o env k pos i ks st).1 = ks ∧ (visitKids o env k pos i ks st).2.forgetA = st.forgetA
+  | [], _, _, _, st, _, _, _, _ => by simp [visitKids]
+  | c :: cs, k, pos, i, st, hj, hi, hq, hd => by
+    simp only [JsxFreeL, Bool.and_eq_true] at hj
+    simp only [NoDcImportL, Bool.and_eq_true] at hi
+    have h1 := visit_identity_rt o env c (kidPos k pos i) st hj.1 hi.1 hq hd
+    have hq1 : Quiet (visit o env c (kidPos k pos i) st).2 := quiet_of_forgetA h1.2 hq
+    have hd1 := dc_of_forgetA h1.2 hd
+    have h2 := visitKids_identity_rt o env cs k pos (i + 1) (visit o env c (kidPos k pos i) st).2 hj.2 hi.2 hq1 hd1
+    simp only [visitKids]
+    exact ⟨by rw [h1.1, h2.1], h2.2.trans h1.2⟩
+end
+
+
+/-! ### module level, every option set -/
+
+theorem ifaceHook_frame (n : Node) (st : St) : ∃ i, ifaceHook n st = { st with interfaces := i } := by
+  unfold ifaceHook
+  split
+  · simp only
+    split
+    · exact ⟨_, rfl⟩
+    · exact ⟨st.interfaces, rfl⟩
+    · exact ⟨_, rfl⟩
+  · exact ⟨st.interfaces, rfl⟩
+
+theorem aliasHook_frame (n : Node) (st : St) : ∃ a, aliasHook n st = { st with typeAliases := a } := by
+  unfold aliasHook
+  split
+  · simp only
+    split
+    · exact ⟨_, rfl⟩
+    · exact ⟨_, rfl⟩
+  · exact ⟨st.typeAliases, rfl⟩
+
+theorem foldl_frame (f : St → Node → St) (hf : ∀ st d, ∃ i a, f st d = { st with interfaces := i, typeAliases := a }) :
+    ∀ (ns : List Node) (st : St), ∃ i a, ns.foldl f st = { st with interfaces := i, typeAliases := a }
+  | [], st => ⟨st.interfaces, st.typeAliases, rfl⟩
+  | d :: rest, st => by
+    obtain ⟨i1, a1, h1⟩ := hf st d
+    obtain ⟨i2, a2, h2⟩ := foldl_frame f hf rest { st with interfaces := i1, typeAliases := a1 }
+    simp only [List.foldl, h1]
+    exact ⟨i2, a2, h2⟩
+
+theorem collectTypes_frame (m : Node) (st : St) :
+    ∃ i a, collectTypes m st = { st with interfaces := i, typeAliases := a } := by
+  unfold collectTypes
+  apply foldl_frame
+  intro st d
+  split
+  · obtain ⟨i, hi⟩ := ifaceHook_frame _ st; exact ⟨i, st.typeAliases, hi⟩
+  · obtain ⟨a, ha⟩ := aliasHook_frame _ st; exact ⟨st.interfaces, a, ha⟩
+  · exact ⟨st.interfaces, st.typeAliases, rfl⟩
+
+/-- THE IDENTITY THEOREM (module level, every option set): a module without JSX that does not import Vue's
+    `defineComponent` is returned unchanged whatever the options are — resolveType on or off, whatever types it
+    declares, whatever comments it carries. -/
+theorem C09_module_identity_all_options (o : Opts) (env : Env) (as las : List String)
+    (items rest : List Node) (hj : JsxFreeL items = true) (hjr : JsxFreeL rest = true)
+    (hi : NoDcImportL items = true) (hir : NoDcImportL rest = true) :
+    (transformModule o env (.mk .module as (.mk .list las items :: rest))).1 = .mk .module as (.mk .list las items :: rest) := by
+  -- the state the traversal starts from: pragma scan, then (with resolveType) the type registry; both leave the rest untouched
+  have hbase : ∀ st0 : St, (st0.imports = [] ∧ st0.slotHelper = none ∧ st0.transformOnHelper = none ∧ Quiet st0 ∧ st0.defineComponent = none) →
+      (visitKids o env .module .normal 1 rest (visitKids o env .list .normal 0 items st0).2).1 = rest
+      ∧ (visitKids o env .list .normal 0 items st0).1 = items
+      ∧ (finishModule items (visitKids o env .module .normal 1 rest (visitKids o env .list .normal 0 items st0).2).2).1 = items := by
+    intro st0 ⟨e1, e2, e3, hq0, hd0⟩
+    have h1 := visitKids_identity_rt o env items .list .normal 0 st0 hj hi hq0 hd0
+    have hq1 := quiet_of_forgetA h1.2 hq0
+    have hd1 := dc_of_forgetA h1.2 hd0
+    have h2 := visitKids_identity_rt o env rest .module .normal 1 _ hjr hir hq1 hd1
+    have hq2 := quiet_of_forgetA h2.2 hq1
+    have hf := h2.2.trans h1.2
+    have f1 : (visitKids o env .module .normal 1 rest (visitKids o env .list .normal 0 items st0).2).2.forgetA.imports = st0.forgetA.imports := by rw [hf]
+    have f2 : (visitKids o env .module .normal 1 rest (visitKids o env .list .normal 0 items st0).2).2.forgetA.slotHelper = st0.forgetA.slotHelper := by rw [hf]
+    have f3 : (visitKids o env .module .normal 1 rest (visitKids o env .list .normal 0 items st0).2).2.forgetA.transformOnHelper = st0.forgetA.transformOnHelper := by rw [hf]
+    simp only [St.forgetA] at f1 f2 f3
+    refine ⟨h2.1, h1.1, ?_⟩
+    simp [finishModule, drainInto_quiet _ _ hq2, f1.trans e1, f2.trans e2, f3.trans e3]
+  have hscan : (scanPragmas env {}).imports = [] ∧ (scanPragmas env {}).slotHelper = none ∧ (scanPragmas env {}).transformOnHelper = none
+      ∧ Quiet (scanPragmas env {}) ∧ (scanPragmas env {}).defineComponent = none := by
+    have : ∀ (cs : List (List String)) (st : St),
+        (st.imports = [] ∧ st.slotHelper = none ∧ st.transformOnHelper = none ∧ Quiet st ∧ st.defineComponent = none) →
+        let r := cs.foldl (fun st cs => match pragmaOfComments cs with | some p => { st with pragma := some p } | none => st) st
+        (r.imports = [] ∧ r.slotHelper = none ∧ r.transformOnHelper = none ∧ Quiet r ∧ r.defineComponent = none) := by
+      intro cs
+      induction cs with
+      | nil => intro st h; exact h
+      | cons c rest ih =>
+        intro st h
+        simp only [List.foldl]
+        apply ih
+        split
+        · exact ⟨h.1, h.2.1, h.2.2.1, ⟨h.2.2.2.1.1, h.2.2.2.1.2⟩, h.2.2.2.2⟩
+        · exact h
+    unfold scanPragmas
+    split
+    · exact ⟨rfl, rfl, rfl, ⟨rfl, rfl⟩, rfl⟩
+    · exact this _ _ ⟨rfl, rfl, rfl, ⟨rfl, rfl⟩, rfl⟩
+  have hstart : ∀ st0 : St, st0 = (if o.resolveType then collectTypes (.mk .module as (.mk .list las items :: rest)) (scanPragmas env {}) else scanPragmas env {}) →
+      (st0.imports = [] ∧ st0.slotHelper = none ∧ st0.transformOnHelper = none ∧ Quiet st0 ∧ st0.defineComponent = none) := by
+    intro st0 h
+    subst h
+    split
+    · obtain ⟨i, a, hc⟩ := collectTypes_frame (.mk .module as (.mk .list las items :: rest)) (scanPragmas env {})
+      rw [hc]
+      exact ⟨hscan.1, hscan.2.1, hscan.2.2.1, ⟨hscan.2.2.2.1.1, hscan.2.2.2.1.2⟩, hscan.2.2.2.2⟩
+    · exact hscan
+  obtain ⟨b1, b2, b3⟩ := hbase _ (hstart _ rfl)
+  simp only [transformModule, b1, b2, b3]
+
+-- non-vacuity: a JSX-free module with a type alias, an import from 'vue' that is NOT defineComponent, and a call named defineComponent
+example : NoDcImportL [.mk .importDecl ["false", "evaluation"] [nList [.mk .importSpec ["false"] [nIdent "ref" "b2", nNone]], nStr "vue", nNone],
+    .mk .tsAlias [] [nIdent "T" "b2", nNone, .mk .tsKeyword ["string"] []],
+    .mk .exprStmt [] [.mk .call ["usr"] [nIdent "defineComponent" "u", nList [], nNone]]] = true := by
+  decide
+
 end VueJsx
